@@ -45,6 +45,15 @@ def gen_cases(rng, tier):
     n = {"quick": 8, "thorough": 160, "search": 30}[tier]
     r = rng.fork("streams")
     cases = []
+    # a stream whose record frames contain the stream magic / a whole header frame as field *content*
+    ds = ["t/magic", [["bytes", "b"], ["string", "s"], ["varint", "n"]]]
+    g = {"_generated": ["dt", [2020, 1, 1, 0, 0, 0, 0], "utc", 0]}
+    cases.append({"kind": "cuts", "gz": True, "faults": True, "records": [
+        ["rec", ds, [V.B(b"x"), V.S("plain"), V.I(1)], g],
+        ["rec", ds, [V.B(b"\x00\x00\x00\x0f\xc4\x0dRECORDSTREAM\n"), V.S("a"), V.I(2)], g],
+        ["rec", ds, [V.B(b"y"), V.S("RECORDSTREAM\n"), V.I(3)], g],
+        ["rec", ds, [V.B(b"RECORDSTREAM\n"), V.S("zzRECORDSTREAM\nzz"), V.I(4)], g],
+        ["rec", ds, [V.B(b"z"), V.S("end"), V.I(5)], g]]})
     for i in range(n):
         ndesc = r.randint(1, 3)
         types = [t for t in V.SERIALISABLE if t not in ("net.ipaddress", "net.IPAddress")]  # C01's known finding
@@ -191,6 +200,17 @@ def run_real(case):
                     gobs = [V.observe(r) for r in got]
                     if gobs != full_obs[:len(gobs)]:
                         problems.append(f"gzip cut {k}: a yielded record differs from / is not a prefix of the written ones")
+                    # what an independent inflater recovers from the same truncated file decides how many frames
+                    # are completely on disk
+                    import zlib
+                    try:
+                        plain = zlib.decompressobj(wbits=31).decompress(gzdata[:k])
+                    except zlib.error:
+                        plain = b""
+                    n_rec = sum(1 for e in ends if e <= len(plain)) if len(plain) >= 19 else 0
+                    if len(got) != n_rec:
+                        problems.append(f"gzip cut {k}: {len(got)} records yielded, but {n_rec} complete record frames "
+                                        f"are recoverable from the truncated file ({len(plain)} plaintext bytes)")
                     if k == len(gzdata) and (len(got) != len(full_obs) or end != "eof"):
                         problems.append(f"complete gzip file: {len(got)} of {len(full_obs)} records, {end}")
         finally:
